@@ -22,25 +22,30 @@ _c15prod = _load("c15prod")
 
 
 def prod_model_agreement(ctx):
-    """The production NFAs through the MODEL of compile (Automata/Compile.v): the DFA the model
-    computes must equal the production DFA state for state (same numbering).  utf8 and command
-    always; event (about 4 minutes of vm_compute on unary state ids) in the thorough tier."""
-    names = ["utf8", "command"] + (["event"] if ctx["tier"] == "thorough" else [])
+    """The production NFAs through the MODEL of compile (Automata/Compile.v, evaluated through its
+    proved-equal efficient rendering Automata/CompileFast.v): the DFA the model computes must equal
+    the production DFA state for state (same numbering), for utf8, command and event."""
+    names = ["utf8", "command", "event"]
     d = os.path.join(ctx["build"], "c15prod")
     os.makedirs(d, exist_ok=True)
-    src = "From Coq Require Import List NArith.\nFrom SNT Require Import Corr.C15Prod Gen.ProdNFA Gen.ProdDFA.\n"
+    src = "From Coq Require Import List NArith.\nFrom SNT Require Import Corr.C15Prod Automata.ProdCheck Gen.ProdNFA Gen.ProdDFA.\nImport ListNotations.\nLocal Open Scope N_scope.\n"
     for nm in names:
         src += "Eval vm_compute in (prod_agree 4096 (Nat.mul 400 400) %s_nfa_data %s_data).\n" % (nm, nm)
+    # the certificate check behind Props/C15Prod.v, and a shortest string on which DFA and NFA differ when it fails
+    for nm in names:
+        src += ("Eval vm_compute in (if check %s_nfa_data %s_data %s_subsets (N.to_nat 100000) then (true, None) "
+                "else (false, prod_witness %s_nfa_data %s_data)).\n" % (nm, nm, nm, nm, nm))
     path = os.path.join(d, "prod_agree.v")
     with open(path, "w") as f:
         f.write(src)
     t0 = time.time()
     p = subprocess.run(["coqc", "-noglob", "-Q", os.path.join(ctx["coq"], "theories"), "SNT", path], cwd=d,
                        stdout=subprocess.PIPE, stderr=subprocess.STDOUT, text=True, timeout=3000)
-    codes = re.findall(r"=\s*(\d+)%N", p.stdout)
+    codes = re.findall(r"=\s*(\d+)(?:%N)?\s*:\s*N\b", p.stdout)
+    certs = re.findall(r"=\s*\((true|false),\s*(None|Some\s*\[[^\]]*\])\)", p.stdout)
     res = {"violations": [], "coverage": {"production_automata_through_model": names}, "notes": [
         "model compile vs production DFA (%s): codes %s, %.1fs" % (", ".join(names), codes, time.time() - t0)]}
-    if p.returncode != 0 or len(codes) != len(names):
+    if p.returncode != 0 or len(codes) != len(names) or len(certs) != len(names):
         res["violations"].append({"kind": "broken-correspondence", "what": "cannot evaluate the model of compile on the production NFAs: " + p.stdout[-800:], "case": {}})
         return res
     what = {"1": "start state", "2": "number of states", "3": "transition table", "4": "accepting/terminal/tags"}
@@ -49,6 +54,20 @@ def prod_model_agreement(ctx):
             res["violations"].append({"kind": "broken-correspondence",
                                       "what": "the model of NFA::compile run on the production %s NFA does not reproduce the production DFA (%s; code %s)" % (nm, what.get(c, "model panic/fuel"), c),
                                       "case": {"automaton": nm}})
+    for nm, (ok, wit) in zip(names, certs):
+        if ok == "true":
+            continue
+        if wit.startswith("Some"):
+            bs = [int(x) for x in re.findall(r"\d+", wit)]
+            res["violations"].append({"kind": "failing-input",
+                                      "what": "production %s automaton: after this byte string the compiled DFA (verif::dump_dfa) and the NFA it was compiled from "
+                                              "(verif::dump_nfa) disagree (dead vs reachable, accepting vs stop reachable, or tags); shortest such string" % nm,
+                                      "case": {"automaton": nm, "bytes": bs, "text": bytes(bs).decode("latin-1")}})
+        else:
+            res["violations"].append({"kind": "broken-correspondence",
+                                      "what": "production %s automaton: the subset-construction certificate no longer checks; no disagreeing string found "
+                                              "within the search budget" % nm, "case": {"automaton": nm}})
+    res["coverage"]["production_certificates"] = {nm: ok for nm, (ok, _) in zip(names, certs)}
     return res
 
 
@@ -57,6 +76,7 @@ PROP = {'gen': [],
  'extra': [prod_model_agreement],
  'coq_props': ['theories/Props/C15.vo'],
  'coq_corr': ['theories/Corr/C15Corr.vo', 'theories/Corr/C15Prod.vo'],
+ 'coq_props_more': [{'target': 'theories/Props/C15Prod.vo', 'file': 'theories/Props/C15Prod.v', 'module': 'Props.C15Prod'}],
  'props_file': 'theories/Props/C15.v',
  'props_module': 'Props.C15',
  'corr_check': 'SNT.Corr.C15Corr.c15_check (model Automata/{NFA,Build,Compile}.v vs surf_n_term::automata::{NFA, DFA}: NFA graph from '
@@ -68,15 +88,18 @@ PROP = {'gen': [],
                'iff the stop state is reachable, carries exactly the tags of the reachable tagged states and is terminal only if no '
                'byte has a transition (C15_compile, C15_compile_total); hence DFA::matches = expression matches (C15_main, '
                'C15_main_unconditional), terminal/dead only if no extension matches (C15_terminal_dead), tags of a tagged choice = tags '
-               'of the matching alternatives for expressions of the tagged-choice shape only (C15_tags_partial; for tags anywhere the '
-               'NFA-level law C15_tags_reachable); each production DFA of decoder.rs, as dumped on this run, is the subset construction '
-               'of the production NFA dumped before compile (C15_production_event/command/utf8: verified certificate checker, translation '
-               'validation). The model is tied to the code by a differential run: NFA graph (Debug output), '
+               'of the matching alternatives (C15_tags_tagged_choice), as the special case of the general expression-level law for tags in '
+               'arbitrary positions (C15_tags: reported tags = {t | some (t, r) of tex e has r matching s}; C15_tags_reachable is the '
+               'NFA-level form); the efficient rendering compile_fast used under vm_compute equals the reference compile '
+               '(C15_compile_fast); each production DFA of decoder.rs, as dumped on this run, is the subset construction of the '
+               'production NFA dumped before compile (Props/C15Prod.v, a separate target: C15_production_event/command/utf8, verified '
+               'certificate checker = translation validation; the model of compile run on the production NFAs reproduces the production '
+               'DFAs state for state). The model is tied to the code by a differential run: NFA graph (Debug output), '
                'DFA (canonical enumeration), acceptance/terminal/tags after every short string and guided long strings, with a '
                'verified derivative matcher as property predicate.',
  'level_note': 'Trusted: Coq kernel + vm_compute; hand-written model (BTreeMap<NFAStateId,_> as a list indexed by id: ids are dense by '
                'construction, compared with the ids printed by the code); denotation of expressions is the specification; symbols are '
-               'bytes. Tags characterised at expression level for tagged choices only. No axioms (Print Assumptions: closed).',
+               'bytes. Tags characterised at expression level for every expression (tex). No axioms (Print Assumptions: closed).',
  'technique': 'Coq proof (structural induction over expressions with path decomposition lemmas; invariant of the subset construction) '
               '+ model/implementation correspondence',
  'design_ref': 'DESIGN.md 5, 6.15',
